@@ -356,6 +356,22 @@ func (r *rt) tabPut(id uint64, idx int32) {
 	panic("simrt: goroutine table full")
 }
 
+// tabDel forgets a goroutine key (tombstone: the slot stays used with key 0).
+func (r *rt) tabDel(id uint64) {
+	h := int(splitmix(id) & 2047)
+	for i := 0; i < 2048; i++ {
+		e := &r.tab[(h+i)&2047]
+		if !e.used {
+			return
+		}
+		if e.goid == id {
+			e.goid = 0
+			e.idx = -1
+			return
+		}
+	}
+}
+
 func (r *rt) tabGet(id uint64) int32 {
 	h := int(splitmix(id) & 2047)
 	for i := 0; i < 2048; i++ {
@@ -368,22 +384,6 @@ func (r *rt) tabGet(id uint64) int32 {
 		}
 	}
 	return -1
-}
-
-// goid parses the current goroutine id from runtime.Stack.
-func goid() uint64 {
-	var buf [40]byte
-	n := runtime.Stack(buf[:], false)
-	// "goroutine 123 ["
-	var id uint64
-	for i := 10; i < n; i++ {
-		c := buf[i]
-		if c < '0' || c > '9' {
-			break
-		}
-		id = id*10 + uint64(c-'0')
-	}
-	return id
 }
 
 // self returns the managed state of the calling goroutine, adopting it if it
@@ -802,6 +802,7 @@ func goExit(r *rt, idx int32) {
 	raceDisable()
 	r.mu.Lock()
 	r.gs[idx].done = true
+	r.tabDel(r.gs[idx].goid)
 	if r.token == idx {
 		r.token = -1
 	}
